@@ -81,7 +81,7 @@ def create(spec: dict):
 
 
 def random_spec(rng: random.Random, *, variants=None, autos='random', mode=None, max_n=None, stacks='mixed',
-                boards=(1, 1, 1, 2), rake_p=0.15, ante_p=0.5, straddle_p=0.2) -> dict:
+                boards=(1, 1, 1, 2), rake_p=0.15, ante_p=0.5, straddle_p=0.2, no_autos=()) -> dict:
     v = rng.choice(variants or list(VARIANTS))
     fam = VARIANTS[v][2]
     kind = VARIANTS[v][1]
@@ -109,6 +109,7 @@ def random_spec(rng: random.Random, *, variants=None, autos='random', mode=None,
         spec['autos'] = []
     else:
         spec['autos'] = list(autos)
+    spec['autos'] = [a for a in spec['autos'] if a not in no_autos]
     spec['mode'] = mode or rng.choice('TC')
     # antes
     antes = [0] * n
